@@ -67,11 +67,17 @@ class Stats:
             self.nontrivial.add(key)
         for k, v in (rec.fault_hits or {}).items():
             self.fault_hits[k] = self.fault_hits.get(k, 0) + v
+        if getattr(rec, 'probes', None) is not None:
+            self.probes['probed_runs'] = self.probes.get('probed_runs', 0) + 1
+            for k, v in rec.probes.items():
+                self.probes['engine:' + k] = self.probes.get('engine:' + k, 0) + v
         if policy:
             self.policies[policy] = self.policies.get(policy, 0) + 1
         if klass:
             self.classes[klass] = self.classes.get(klass, 0) + 1
         self.handles += rec.steps or 0
+        if (rec.steps or 0) > self.probes.get('max_handles_in_one_run', 0):
+            self.probes['max_handles_in_one_run'] = rec.steps
         self.vtime += rec.vtime or 0.0
         self.ticks += rec.ticks or 0
 
@@ -125,6 +131,8 @@ class Prop:
         spec = self.gen_spec(rng)
         case = {'spec': spec, 'runs': [{'input': gen.gen_input(rng)}], 'mode': 'solo',
                 'uuid_seed': rng.randrange(1 << 30)}
+        if rng.random() < 0.08:
+            case['probe'] = True     # reach measurement: engine DEBUG records counted by template
         self.decorate(case, rng)
         k = self.k()
         scheds = [{'fifo': True, 'set_seed': rng.randrange(1 << 16)}] if rng.random() < 0.5 else []
